@@ -1039,7 +1039,17 @@ impl crate::core::Harness for E1Harness {
         self.cfg.label.clone()
     }
     fn run(&self, ctx: &mut Ctx) -> RunResult {
-        run_e1(&self.cfg, ctx)
+        let mut r = run_e1(&self.cfg, ctx);
+        // A consequence observed in an execution that went through one of the release windows is
+        // identified by that window (the history feature), the symptom only qualifies it.
+        for v in r.violations.iter_mut() {
+            if let Some((symptom, cause)) = v.signature.rsplit_once(" cause=") {
+                if cause != "none" && !cause.contains(' ') {
+                    v.signature = format!("window={} {}", cause, symptom);
+                }
+            }
+        }
+        r
     }
     fn params(&self) -> serde_json::Value {
         serde_json::json!({"engine": "e1", "label": self.cfg.label, "prop": format!("{:?}", self.cfg.prop)})
